@@ -16,7 +16,7 @@ def handle (α : Type) [Arith α] [Wire α] : List Sexp → Sexp
     | _, _ => app "err" [.atom "decode"]
   | [.atom "rownames", lm] =>
     match (LinModel.dec lm : Option (LinModel α)) with
-    | some lm => app "ok" ((Lp.rowNames 0 lm.rows).map fun n => .str (String.ofList n))
+    | some lm => app "ok" ((Lp.rowNames lm.rows).map fun n => .str (String.ofList n))
     | none => app "err" [.atom "decode"]
   | _ => app "err" [.atom "bad-request"]
 
